@@ -9,6 +9,7 @@ from ..env import gfapy, GfapyError
 from ..runner import Part, Violation
 
 ID = "C20"
+ATHERIS = ['tags']  # parts also driven by libFuzzer in the thorough tier (vf/runner.py: all_parts)
 RULE = ("(tag name, declared datatype or none, Python value, vlevel 0-3, set() or attribute assignment, carrier "
         "record type) with values in and just outside each datatype's range: ints incl. every B-subtype boundary "
         "+-1, +-2^31, 2^63; finite floats incl. exponents and -0.0; printable strings; characters; nested JSON; "
